@@ -235,6 +235,13 @@ def rejection_sampling(ctx, world, ev):
         sym_mask = mask_kind == "byte" and (nz and mask == mk_app("Sub", (mk_app("LShift", (Const(1), leftover)), Const(1)))) or (mask_kind == "byte" and z and mask == Const(0xff))
         blconds = [(t, p) for (t, p) in conds if any(x == blt for x in subterms(t))]
         bad_n, bad_m, unfold = [], [], []
+        shared = [x for t_ in (mask, nb) for x in subterms(t_) if is_app(x, "msc")]
+        if shared:
+            # DESIGN 1.4: what the analysis cannot interpret is "no verdict", not a violation - the value read from a shared
+            # mutable container (a hand-written cache) depends on the history of the process; C16/W1 reports the container
+            raise AnalysisError("%s:%s the mask / draw length of the sampler is read from the shared mutable container %s: its value depends on "
+                                "what earlier calls stored there - outside the analysable subset, no verdict (C16 reports the container)"
+                                % (site[0] if site else "?", site[1] if site else "?", show(shared[0].args[0])))
         for b in range(0, BMAX + 1):
             sub = {blt: Const(b)}
             applies = True
